@@ -73,6 +73,62 @@ def _static_worker(args):
                 "crash": True, "paths": 0, "fingerprint": None}
 
 
+def _child(conn, kind, arg):
+    try:
+        res = _worker(arg) if kind == "fn" else _static_worker(arg)
+    except BaseException as e:  # noqa: BLE001
+        res = {"key": str(arg), "error": f"crash: {e!r}", "traceback": traceback.format_exc(), "crash": True,
+               "obligations": [], "paths": 0, "fingerprint": None}
+    try:
+        conn.send(res)
+    finally:
+        conn.close()
+
+
+def run_tasks(tasks, jobs, budget_s):
+    """one process per task, at most `jobs` at a time, each killed after budget_s (=> undecided)"""
+    ctx = mp.get_context("fork")
+    pending = list(tasks)
+    running = []
+    results = []
+    while pending or running:
+        while pending and len(running) < jobs:
+            kind, arg, label = pending.pop(0)
+            parent, child = ctx.Pipe(duplex=False)
+            p = ctx.Process(target=_child, args=(child, kind, arg))
+            p.start()
+            child.close()
+            running.append((p, parent, time.time(), label))
+        still = []
+        for p, conn, t0, label in running:
+            if conn.poll(0.01):
+                try:
+                    results.append(conn.recv())
+                except EOFError:
+                    results.append({"key": label, "error": "crash: worker died", "crash": True, "obligations": [],
+                                    "paths": 0, "fingerprint": None})
+                p.join(5)
+                continue
+            if not p.is_alive():
+                if conn.poll(0.05):
+                    results.append(conn.recv())
+                else:
+                    results.append({"key": label, "error": f"crash: worker exited with {p.exitcode}", "crash": True,
+                                    "obligations": [], "paths": 0, "fingerprint": None})
+                continue
+            if time.time() - t0 > budget_s:
+                p.kill()
+                p.join(5)
+                results.append({"key": label, "error": f"Budget: no answer within {int(budget_s)} s (worker killed)",
+                                "obligations": [], "paths": 0, "fingerprint": None})
+                continue
+            still.append((p, conn, t0, label))
+        running = still
+        if running:
+            time.sleep(0.02)
+    return results
+
+
 def group(results):
     """obligation name -> {'verdict', 'paths', 'time', 'backends', 'recs'}"""
     g = {}
@@ -161,13 +217,9 @@ def run_property(prop, tier="quick", seed=0, jobs=None, rebaseline=False, only=N
                 if not only or only in name:
                     statics.append((kind, i, timeout_s))
     jobs = jobs or min(16, os.cpu_count() or 4)
-    results = []
-    ctx = mp.get_context("fork")
-    if keys or statics:
-        with ctx.Pool(jobs) as pool:
-            r1 = pool.map_async(_worker, [(k, timeout_s) for k in keys], chunksize=1)
-            r2 = pool.map_async(_static_worker, statics, chunksize=1)
-            results = r1.get() + r2.get()
+    per_fn_budget = 150.0 if tier == "quick" else 900.0
+    tasks = [("fn", (k, timeout_s), k) for k in keys] + [("static", st, f"{st[0]}#{st[1]}") for st in statics]
+    results = run_tasks(tasks, jobs, per_fn_budget)
 
     crashes = [r for r in results if r.get("crash")]
     g = group(results)
